@@ -292,6 +292,7 @@ def prog_check(start, case, rec):
         if intrinsic != dim:
             break
         pts0, cells0 = np.array(m.points, float), np.array(m.cells)
+        src = m
         if op == "rotate":
             if dim == 1:
                 continue
@@ -496,6 +497,10 @@ def prog_check(start, case, rec):
             if d is not None:
                 slack += len(P) * 10.0 ** (-d) / hmin / max(V, 1e-12) * (np.ptp(pts0, axis=0).max() ** (dim - 1))
         applied.append(op)
+        if m is not src:
+            # every tool returns a NEW mesh: the mesh it was called on is still the one it was (it may be used again, e.g. joined with
+            # its transformed copy)
+            rec.require(op + ":leaves-the-mesh-it-was-called-on-alone", np.array_equal(np.asarray(src.points, float), pts0) and np.array_equal(np.asarray(src.cells), cells0))
         verify(op, m, V, slack)
     rec.nontrivial = len(applied) >= 3 and topo >= 1
     for a_ in set(applied):
